@@ -47,7 +47,7 @@ func NewIncreaseLevelCore(core Core, level LevelEnabler) (Core, error) {
 }
 
 func (c *levelFilterCore) Enabled(lvl Level) bool {
-	return c.level.Enabled(lvl)
+	return c.level.Enabled(lvl) && c.core.Enabled(lvl)
 }
 
 func (c *levelFilterCore) Level() Level {
